@@ -6,7 +6,22 @@ pid = p["id"]
 N = int(sys.argv[2]) if len(sys.argv) > 2 else 2
 NW = {2: "TWO", 3: "THREE", 4: "FOUR"}[N]
 KS = ", ".join(str(i) for i in range(1, N + 1))
-print(f"""You are helping evaluate a verification effort for the Python library ioflo/hio (a generator-based hierarchical cooperative scheduler with virtual time, plus nonblocking TCP/TLS and HTTP client/server, memo datagram transport, LMDB-backed stores). Your job is to play the adversary: produce realistic, subtle code changes ("seeded bugs") that break ONE stated property of the library.
+AVOID = ""
+if len(sys.argv) > 3 and sys.argv[3] == "avoid":
+    import glob, os
+    lines = []
+    for d in sorted(glob.glob("/verif/seeded/%s-*" % pid)):
+        try:
+            m = json.load(open(os.path.join(d, "meta.json")))
+            lines.append("  - " + " ".join(str(m.get("summary", "")).split())[:260])
+        except Exception:
+            pass
+    if lines:
+        AVOID = ("\n\nALREADY TRIED by earlier adversaries (do NOT repeat these or trivial variants of them; find different code sites, "
+                 "different mechanisms, different triggering circumstances - e.g. other methods of the same classes, other classes named in "
+                 "the property, interactions between two features, state carried from one operation/message/run to the next, rarely used "
+                 "parameters and entry points):\n" + "\n".join(lines))
+TEXT = (f"""You are helping evaluate a verification effort for the Python library ioflo/hio (a generator-based hierarchical cooperative scheduler with virtual time, plus nonblocking TCP/TLS and HTTP client/server, memo datagram transport, LMDB-backed stores). Your job is to play the adversary: produce realistic, subtle code changes ("seeded bugs") that break ONE stated property of the library.
 
 Your private scratch copy of the repository is the git worktree at /tmp/mut_{pid} (library source under /tmp/mut_{pid}/src/hio, its tests under /tmp/mut_{pid}/tests). Work ONLY inside /tmp/mut_{pid} and write your results to /tmp/mut_{pid}_out/. Do NOT read, list or touch /verif, /repo, /root/.claude or /root/.vp, and do not run git commands that change /repo (git diff / git checkout inside your worktree are fine). Never commit.
 
@@ -15,7 +30,7 @@ Statement: {p['statement']}
 Quantified over: {p['quantifier']['text']}
 Code most relevant: {', '.join(p['anchors']['files'])}
 
-TASK: produce {NW} independent changes to the library source (each a separate small patch, 1-15 changed lines) such that, with the change applied:
+{{AVOID_PLACEHOLDER}}TASK: produce {NW} independent changes to the library source (each a separate small patch, 1-15 changed lines) such that, with the change applied:
   (a) the library still imports and the existing tests still pass exactly as before. Note: the pinned suite `cd /tmp/mut_{pid} && /venv/bin/python -m pytest -q -p no:cacheprovider tests/...` imports the *installed* site-packages hio, so additionally run the relevant tree-directed tests with `cd /tmp/mut_{pid} && PYTHONPATH=/tmp/mut_{pid}/src /venv/bin/python -m pytest -q -p no:cacheprovider <relevant test files>` before and after your change and make sure the set of failing tests is unchanged (IMPORTANT: other people run the same port-using tests concurrently on this machine; to avoid port clashes run every pytest command inside a private network namespace: `unshare -n sh -c 'ip link set lo up; cd /tmp/mut_{pid} && PYTHONPATH=/tmp/mut_{pid}/src /venv/bin/python -m pytest -q -p no:cacheprovider <files>'`; run only the test files relevant to the code you touch, not the whole suite) (a few tests fail already on the unchanged tree, e.g. tests/base/test_doist.py::test_doist_dos, tests/base/test_asyncio.py::test_asyncio_await_method, tests/base/test_filing.py::test_filing; hier/ and memo tests may have their own pre-existing failures - compare before/after);
   (b) the property above is violated, but only under something specific: a particular interleaving or step order, a fault at a particular point, a multi-step sequence of operations, an unusual-but-legal input, a boundary value, or two cooperating sites that each look fine alone. Do NOT produce changes that ordinary use would expose at once (e.g. breaking every call). Prefer changes in cursor/offset/ordering/state-reset logic, off-by-one at a boundary, a dropped or swapped step on a rare path, a stale cached value, a condition that is wrong only for one combination of flags.
   (c) the changes should each break the property in DIFFERENT ways / at different code sites.
@@ -25,3 +40,4 @@ For each change k in ({KS}) write:
   /tmp/mut_{pid}_out/m{{k}}_demo.py - a standalone script run as `PYTHONPATH=<root>/src /venv/bin/python m{{k}}_demo.py` (it must take the source root from PYTHONPATH, not hard-code /tmp/mut_{pid}) that exits 0 on the unchanged tree and exits non-zero (assertion failure) with the change applied, demonstrating the property violation through public API use
   /tmp/mut_{pid}_out/m{{k}}.json    - {{"property": "{pid}", "summary": "...what was changed...", "needs": "...what specific circumstance makes it manifest...", "tests_run": "...commands you ran and their pass/fail counts before and after..."}}
 After producing each diff, revert the worktree (`git -C /tmp/mut_{pid} checkout -- .`) so the patches are independent, and verify each demo passes on the clean worktree and fails with its patch applied. Leave the worktree clean at the end. Use /venv/bin/python (3.12) for everything. There is no network. Clean up any /tmp/hio* or /root/hio directories tests may leave behind. In your final message just list the files written and one line per change.""")
+print(TEXT.replace("{AVOID_PLACEHOLDER}", (AVOID.strip() + "\n\n") if AVOID else ""))
